@@ -2,7 +2,16 @@
     This file only pins statements: every theorem restates a lemma of proofs/ verbatim and is closed by it. *)
 From CacheD Require Import Base Sketch Model Window Micro.
 From CacheD.proofs Require Import Defs ApiProofs HistoryProofs StatsProofs.
-From CacheD.proofs Require Import MicroProofs MicroBal MicroAll.
+From CacheD.proofs Require Import MicroProofs MicroBal MicroAll MicroProv.
+
+(** (C02, provenance, for every micro schedule - no restriction on what overtakes what): whatever is stored under
+   a key at any state was written for that key by a put or a put_or_update that had begun by then; reads return stored
+   values, so no read ever returns a value nobody wrote for that key, or another key's value *)
+Theorem C02_micro_store_value_provenance :
+  forall cfg evs k e,
+  alookup k (store (mbase (mrun cfg evs))) = Some e -> Exists (mwrites k (e_val e)) evs.
+Proof. exact micro_store_value_provenance. Qed.
+Print Assumptions C02_micro_store_value_provenance.
 
 (** the micro steps of one call, executed back to back by a caller that is not inside another call, are the
    atomic call of Model.v: same state, same observation, and the caller is out of every window again *)
